@@ -8,6 +8,7 @@ Defects of the current code: `Sqfs/Witness/C01.lean`.
 -/
 import Sqfs.Proofs.EncInodeRT
 import Sqfs.Proofs.EncWf
+import Sqfs.Proofs.EncInodeSet
 import Sqfs.Proofs.EncDirIndex
 import Sqfs.Proofs.EncTables
 import Sqfs.Proofs.EncMetaPos
@@ -109,6 +110,36 @@ example := (selection_minimal_and_safe ⟨0o100644, 9, 4, 2, NONE32⟩).1
 example := (selection_minimal_and_safe ⟨0o100644, 9, 4, 1, NONE32⟩).1
   (.file ⟨0, 0, 0, 0, 0⟩ 96 NONE32 NONE32 5000 [4096, 904]) (by decide) (by decide)
   (fun _ _ _ _ _ _ h => by cases h; exact ⟨by decide, by decide⟩)
+
+/-- **`sqfs_inode_set_file_size` / `sqfs_inode_set_file_block_start` never truncate** (inode.c:241-298, the two stores
+the block processor makes into a file inode).  Whatever the inode was — basic or extended — and whatever 64-bit value
+is stored: the reader-visible size (resp. block start) afterwards is exactly that value and nothing else a reader sees
+changes (for an inode with at least one link); a value of 2³² or more **makes the inode extended**; and a basic file
+inode has both fields within 32 bits afterwards if it had before (`FileFits`) — which is the premise
+`selection_minimal_and_safe` takes for basic file inodes, here established from the code that produces them. -/
+theorem file_size_start_no_truncation (v : Nat) (i i' : Inode) :
+    (setFileSize v i = some i' →
+      i'.view.nums = i.view.nums.set 1 v
+      ∧ i'.view.typeBits = i.view.typeBits ∧ i'.view.base = i.view.base ∧ i'.view.xattr = i.view.xattr
+      ∧ i'.view.words = i.view.words ∧ i'.view.bytes = i.view.bytes
+      ∧ (1 ≤ i.view.nlink → i'.view.nlink = i.view.nlink)
+      ∧ (v > 0xFFFFFFFF → i'.isExt = true) ∧ (FileFits i → FileFits i'))
+    ∧ (setFileBlockStart v i = some i' →
+      i'.view.nums = i.view.nums.set 0 v
+      ∧ i'.view.typeBits = i.view.typeBits ∧ i'.view.base = i.view.base ∧ i'.view.xattr = i.view.xattr
+      ∧ i'.view.words = i.view.words ∧ i'.view.bytes = i.view.bytes
+      ∧ (1 ≤ i.view.nlink → i'.view.nlink = i.view.nlink)
+      ∧ (v > 0xFFFFFFFF → i'.isExt = true) ∧ (FileFits i → FileFits i')) :=
+  ⟨setFileSize_spec v i i', setFileBlockStart_spec v i i'⟩
+
+-- applied: a basic file inode given a 5 GiB size is promoted; an extended one given a data start beyond 4 GiB stays
+-- extended; an extended one whose size drops to 10 bytes (and that has nothing else to keep it extended) is demoted
+example := (file_size_start_no_truncation (5 * 2 ^ 30) (.file ⟨0o100644, 1, 2, 3, 4⟩ 96 NONE32 NONE32 100 [100]) _).1 rfl
+example := (file_size_start_no_truncation (2 ^ 32 + 96) (.fileExt ⟨0o100644, 1, 2, 3, 4⟩ 96 100 0 1 NONE32 NONE32 NONE32 [100]) _).2 rfl
+example : setFileSize 10 (.fileExt ⟨0o100644, 1, 2, 3, 4⟩ 96 (5 * 2 ^ 30) 0 1 NONE32 NONE32 NONE32 [])
+    = some (.file ⟨0o100644, 1, 2, 3, 4⟩ 96 NONE32 NONE32 10 []) := by decide
+example : setFileSize (5 * 2 ^ 30) (.file ⟨0o100644, 1, 2, 3, 4⟩ 96 NONE32 NONE32 100 [100])
+    = some (.fileExt ⟨0o100644, 1, 2, 3, 4⟩ 96 (5 * 2 ^ 30) 0 1 NONE32 NONE32 NONE32 [100]) := by decide
 
 /-! ## directory listings -/
 
